@@ -164,6 +164,12 @@ def cases(draw, tier='quick', driver=None, big=False):
         # diagnostics may fail, recording the lost layer must not depend on it
         ascii_console = True
         at_import(['in_child', ['noise', 'fd2', 'd\xc3\xa9marrage du service: \xe2\x9c\x93\n', 1], tgt])
+    if draw(st.integers(0, 5)) == 0:
+        # a module that cannot be imported: parent and child both meet it during discovery (it is reported once, by the
+        # parent, and is no part of the child's report)
+        spec['modules'].append({'name': 'x1', 'fail': draw(st.sampled_from(('ImportError', 'ValueError', 'SyntaxError',
+                                                                            'KeyError'))),
+                                'tree': {'t': 's', 'ch': []}})
     verbose = draw(st.sampled_from([1, 1, 2, 3, 0]))
     if verbose == 0 and driver != 'inproc':
         verbose = 1       # (without -v the lists are not printed: they are read from the Runner object, in-process only)
@@ -210,6 +216,10 @@ def oracle(case, spec, run):
     tfull = model.layer_fullname(spec, 1)
     pfull = model.layer_fullname(spec, 0)
     labels = [case['mode'], case['driver'], 'fault:' + fault['kind']]
+    # (modules that cannot be imported are counted among the errors of the Total line and listed under their own heading)
+    nimport = sum(1 for m in spec['modules'] if m.get('fail'))
+    if nimport:
+        labels.append('import-failure')
     if case.get('ascii_console'):
         labels.append('ascii-only-console')
     if case.get('repeat', 1) > 1:
@@ -335,7 +345,7 @@ def oracle(case, spec, run):
         viol += [('C07/' + sig, msg) for sig, msg in mm]
     if p.total is None:
         viol.append(('C07/no-total', 'no Total line in the parent output'))
-    elif p.total[1] != sum(got_f.values()) or p.total[2] != len(got_e_all):
+    elif p.total[1] != sum(got_f.values()) or p.total[2] != len(got_e_all) + nimport:
         viol.append(('C07/total-vs-lists', 'Total %s but %d failures / %d errors listed'
                      % (p.total, sum(got_f.values()), len(got_e_all))))
     exp_f, exp_e = (base_f, base_e) if accept[0] is ERROR else (base_f + accept[0][1], base_e + accept[0][2])
